@@ -1984,3 +1984,130 @@ Proof.
     assert (k1 = O) by lia. assert (k2 = O) by lia. subst.
     cbn [subsets] in H1, H2. destruct H1 as [<-|[]]. destruct H2 as [<-|[]]. reflexivity.
 Qed.
+
+(** * Closed witnesses on the free-term instance (Model/PCR0SearchCases.v) *)
+From CSS Require Import Lib.Cases Model.PCR0SearchCases.
+
+Lemma term_eqb_spec : forall a b, term_eqb a b = true <-> a = b.
+Proof.
+  induction a as [i|t r|l|p IHp d IHd]; intros [j|t' r'|l'|p' d']; cbn [term_eqb];
+    try (split; discriminate).
+  - rewrite Z.eqb_eq. split; [intros ->; reflexivity|intro H; inversion H; reflexivity].
+  - rewrite andb_true_iff, !Z.eqb_eq. split; [intros (-> & ->); reflexivity|intro H; inversion H; auto].
+  - rewrite Z.eqb_eq. split; [intros ->; reflexivity|intro H; inversion H; reflexivity].
+  - destruct (term_eqb d d') eqn:E.
+    + apply IHd in E. subst d'. rewrite IHp. split; [intros ->; reflexivity|intro H; inversion H; reflexivity].
+    + split; [discriminate|]. intro H. inversion H; subst.
+      assert (term_eqb d' d' = true) by (apply IHd; reflexivity). congruence.
+Qed.
+
+Definition t_outcomes := outcomes term term_eqb Init Ext DataH.
+Definition t_reachable := reachable term Init Ext DataH.
+Definition R0 : Z := 8591017601. (* ACM_POLICY_STATUS 0x0000000200108681 *)
+
+(** finding C03-D21: MaxACMPolicyLinearDistance = 2, register off by 2 *)
+Definition st_d21 := mkSettings 4 0 false 2 2.
+Definition log_d21 : list tmeas := [MD 1 R0; MP (Atom 1)].
+Definition tgt_d21 : term := Ext (Ext (Init 3) (DataH 1 (R0 - 2))) (Atom 1).
+
+Lemma d21_witness :
+  lin_limit st_d21 = 2 /\
+  t_outcomes st_d21 log_d21 tgt_d21 1 = [FNone] /\
+  t_outcomes st_d21 log_d21 tgt_d21 4 = [FSome (mkResult 3 (Some (R0 - 2)) [] [])].
+Proof. split; [reflexivity|]. split; vm_compute; reflexivity. Qed.
+
+(** finding C03-drop-all-not-searched *)
+Definition st_da := mkSettings 4 0 false 2 2.
+Definition log_da : list tmeas := [MD 1 R0].
+
+Lemma dropall_witness :
+  Z.of_nat (length log_da) < max_disabled st_da /\
+  replay term Init Ext 0 [] = Init 0 /\
+  (forall cf, In cf [1; 2; 4; 64] -> t_outcomes st_da log_da (Init 0) cf = [FNone]).
+Proof.
+  split; [vm_compute; reflexivity|]. split; [reflexivity|].
+  intros cf [<-|[<-|[<-|[<-|[]]]]]; vm_compute; reflexivity.
+Qed.
+
+(** finding C03-resultch-deadlock *)
+Definition st_h := mkSettings 4 0 false 2 1.
+Definition log_h : list tmeas := MD 1 R0 :: repeat (MP (Atom 1)) 7.
+Definition tgt_h : term := fold_left Ext (DataH 1 R0 :: repeat (Atom 1) 6) (Init 3).
+
+Lemma hang_witness :
+  t_reachable st_h log_h tgt_h (prop_decs st_h) /\ In FHang (t_outcomes st_h log_h tgt_h 5).
+Proof.
+  split.
+  - exists 3, [1], (Some R0), []. split; [now right|]. split.
+    + split.
+      * assert (E : Z.of_nat (nlog term log_h) = 8) by (vm_compute; reflexivity). rewrite E.
+        unfold Valid. cbn [Inc]. lia.
+      * assert (E : kmax term st_h log_h = 4%nat) by (vm_compute; reflexivity). rewrite E.
+        cbn [length]. lia.
+    + unfold space.
+      match goal with
+      | |- context [match ?x with [] => _ | _ :: _ => _ end] =>
+          assert (E : x = MD 1 R0 :: repeat (MP (Atom 1)) 6) by (vm_compute; reflexivity); rewrite E
+      end.
+      split; [apply swaps_wf_nil|]. split; [vm_compute; discriminate|]. split.
+      * cbn [MD m_data]. exists R0. split; [reflexivity|]. left. exists 0. split; [vm_compute; tauto|].
+        vm_compute. reflexivity.
+      * vm_compute. reflexivity.
+  - vm_compute. tauto.
+Qed.
+
+(** * Statements without the unused parameters of the section (for Props/C03.v) *)
+
+Lemma order_sound D (deqb : D -> D -> bool) (pcr_init : Z -> D) (extend : D -> D -> D) st target :
+  (forall a b, deqb a b = true <-> a = b) ->
+  forall loc ms s, order_search D deqb pcr_init extend st target loc ms = Some s ->
+    swaps_wf (length ms) (fresh (length ms)) s /\ Z.of_nat (length s) <= max_reorders st /\
+    replay D pcr_init extend loc (apply_swaps s ms) = target.
+Proof. intros Hd loc ms s. exact (order_search_sound D deqb Hd pcr_init extend (fun _ _ => target) st target loc ms s). Qed.
+
+Lemma order_complete D (deqb : D -> D -> bool) (pcr_init : Z -> D) (extend : D -> D -> D) st target :
+  (forall a b, deqb a b = true <-> a = b) ->
+  forall loc ms s, swaps_wf (length ms) (fresh (length ms)) s -> Z.of_nat (length s) <= max_reorders st ->
+    replay D pcr_init extend loc (apply_swaps s ms) = target ->
+    order_search D deqb pcr_init extend st target loc ms <> None.
+Proof. intros Hd loc ms s. exact (order_search_complete D deqb Hd pcr_init extend (fun _ _ => target) st target loc ms s). Qed.
+
+Lemma swap_nth_nil {A} a b : swap_nth a b (@nil A) = [].
+Proof. unfold swap_nth. destruct a; reflexivity. Qed.
+
+Lemma apply_swaps_nil {A} : forall s, apply_swaps s (@nil A) = [].
+Proof.
+  induction s as [|p s IH]; [reflexivity|].
+  cbn [apply_swaps fold_left]. rewrite swap_nth_nil. exact IH.
+Qed.
+
+Lemma select_nil_r {A} fl : select fl (@nil A) = [].
+Proof. destruct fl; reflexivity. Qed.
+
+Lemma index_translation D (deqb : D -> D -> bool) (pcr0data : Z -> Z -> D) (log : list (meas D)) loc comb reg s :
+  (forall a b, deqb a b = true <-> a = b) ->
+  Forall (fun i => (i < length (select (enabled_flags D log comb) log))%nat) (swap_idx s) ->
+  apply_result D pcr0data log
+    (mkResult loc reg (disabled_of D log comb) (shift_swaps (idx_shifts (enabled_flags D log comb) 0) s))
+  = apply_swaps s (enabled_digests D pcr0data log comb reg).
+Proof.
+  intro Hd. destruct log as [|m0 log'].
+  - intros _. unfold apply_result, enabled_digests, nlog. cbn [length seq map combine].
+    rewrite apply_swaps_nil, select_nil_r. cbn [filter map].
+    destruct reg; cbn [map]; now rewrite apply_swaps_nil.
+  - exact (apply_result_eq D deqb Hd
+                           (fun _ => m_dig m0) (fun a _ => a) pcr0data (m0 :: log') (m_dig m0) loc comb reg s).
+Qed.
+
+Lemma comb_partition D (deqb : D -> D -> bool) st (log : list (meas D)) cf k :
+  (forall a b, deqb a b = true <-> a = b) ->
+  1 <= cf -> no_overflow D st log -> (k < kmax D st log)%nat ->
+  exists ws, level_workers D log cf k = Ok ws /\
+    (forall cs c, In cs ws -> In c cs -> Valid (Z.of_nat (nlog D log)) c /\ length c = k) /\
+    (forall c, Valid (Z.of_nat (nlog D log)) c -> length c = k -> exists cs, In cs ws /\ In c cs).
+Proof.
+  intros Hd Hcf Hno Hk. destruct log as [|m0 log'].
+  - exfalso. unfold kmax, nlog in Hk. cbn [length] in Hk. lia.
+  - exact (level_workers_ok D deqb Hd (fun _ => m_dig m0) (fun a _ => a) (fun _ _ => m_dig m0) st
+             (m0 :: log') (m_dig m0) cf k Hcf Hno Hk).
+Qed.
